@@ -28,6 +28,8 @@ import (
 	"sort"
 	"strings"
 
+	"github.com/specterops/dawgs/cypher/parser"
+
 	"verif/core"
 	"verif/enum/cytext"
 	"verif/enum/grammar"
@@ -67,6 +69,9 @@ func (s *explorer) take(text string) bool {
 func (s *explorer) eval(a artefact) {
 	run := s.run
 	run.Add("evaluations", 1)
+	if run.Get("evaluations")%resetEvery == 0 {
+		parser.VerifResetPredictionCaches() // bounds the memory of ANTLR's process-wide prediction caches
+	}
 	run.Add("texts_"+a.Origin, 1)
 	r := check(a)
 	switch {
@@ -88,6 +93,9 @@ func (s *explorer) eval(a artefact) {
 		}
 	}
 }
+
+// resetEvery is the number of evaluations after which ANTLR's prediction caches are dropped (overlay accessor in cypher/parser).
+const resetEvery = 50000
 
 func main() {
 	run := core.Start("C07", "exploration")
